@@ -391,7 +391,7 @@ import (
 //@   requires session != nil
 //@   ensures  result != nil && fresh(result) && result.session == session && result.id == id && result.recvBuf != nil && result.sendBuf != nil && result.pendingData != nil
 //@   ensures  result.state == 0
-//@   modifies nothing
+//@   modifies all(pendingData.stream)
 
 //@ func (*bufferManager).readBufferSlice
 //@   requires len(b.mem) < 4294967296   // a mapping is at most 4 GiB (its size is a uint32)
@@ -452,11 +452,11 @@ import (
 
 //@ func handleShareMemoryByFilePath
 //@   requires s != nil && len(hdr) >= 8
-//@   modifies heap
+//@   modifies heap, s.queueManager, s.bufferManager
 
 //@ func handleShareMemoryByMemFd
 //@   requires s != nil && len(h) >= 8
-//@   modifies heap
+//@   modifies heap, s.queueManager, s.bufferManager
 
 //@ func handleExchangeVersion
 //@   requires s != nil && len(h) >= 8
@@ -892,7 +892,7 @@ func lemmaCreateThenMapQueue(data []byte, cap uint32) {
 //@   modifies heap
 
 //@ func (*Stream).ReleaseReadAndReuse
-//@   modifies heap
+//@   modifies heap, s.recvBuf, s.sendBuf
 
 //@ stable streamPool.capacity, streamPool.streams, streamPool.head, streamPool.tail, Stream.pool
 
@@ -910,6 +910,7 @@ func lemmaCreateThenMapQueue(data []byte, cap uint32) {
 //@   exit[C15] r1 == nil ==> r0 != nil && !leak && (pending == 0 || pending == r0)
 //@   exit[C15] r1 != nil ==> r0 == nil && !leak && pending == 0
 //@   loop 0 invariant wfPool(p) && !leak && (stream == pending || pending == 0) && (stream == nil ==> pending == 0)
+//@   modifies heap, all(Stream.pool)
 
 // putOrCloseStream: every put-back either pushes the stream (after a successful reset) or closes it
 //@ func (*streamPool).putOrCloseStream
@@ -931,7 +932,7 @@ func lemmaCreateThenMapQueue(data []byte, cap uint32) {
 //@ func (*Stream).reset
 //@   ensures  result == nil ==> !s.inFallbackState
 //@   ensures[C15] result == nil ==> s.state == 0 && s.recvBuf.len <= 0 && len(s.pendingData.unread) == 0
-//@   modifies heap
+//@   modifies heap, s.inFallbackState
 
 //@ func (*streamPool).Session
 //@   trusted  a pool always has its session stored: NewSessionManager and the hot-restart handler store it right after newStreamPool (atomic.Value contents are not modelled)
@@ -1354,7 +1355,7 @@ func lemmaCreateThenMapQueue(data []byte, cap uint32) {
 //@   exit[C09@owed] !owed
 //@   loop 0 invariant[C09@owed] !owed
 //@   loop 1 invariant[C09@owed] !owed
-//@   modifies heap
+//@   modifies heap, r.stream.inFallbackState, r.unread
 
 // Discard: drops exactly size bytes (after the refill), slice by slice
 //@ func (*linkedBuffer).Discard
@@ -1432,7 +1433,7 @@ func lemmaUpdateThenNew(s *bufferSlice) {
 //@   exit[C09] len(r.unread) == 0 && (!broke ==> handled == old(len(r.unread)))
 //@   loop 0 invariant -1 <= rangeindex && rangeindex < len(r.unread) && !broke && handled == rangeindex + 1 && r.unread == old(r.unread) && r.stream == old(r.stream)
 //@   loop 0 assume rangeindex + 1 < len(r.unread) ==> r.stream.session.bufferManager != nil && len(r.stream.session.bufferManager.mem) < 4294967296
-//@   modifies heap
+//@   modifies heap, r.unread
 //@ func (*Stream).writeFallback
 //@   modifies heap
 //@ func (*Session).onStreamClose
@@ -1472,7 +1473,7 @@ func lemmaUpdateThenNew(s *bufferSlice) {
 //@   loop 0 invariant (putOK ==> err == nil) && !woke && !recycled && !fellBack && !notShm && !old(s.inFallbackState) && state == 0 && sessOK(s.session) && putTried
 //@   at call? (*linkedBuffer).rootBufOffset#0 assume buf.sliceList.frontSlice != nil
 //@   at call? (*linkedBuffer).rootBufOffset#1 assume buf.sliceList.frontSlice != nil
-//@   modifies heap
+//@   modifies heap, s.inFallbackState
 
 // C05: the consumer-working flag
 // --- C05 under interference (variant runs markNotWorking@conc / markWorking@conc / put@conc) ---------------
